@@ -23,7 +23,26 @@
 #include <tsolvers/RDLTHandler.h>
 #include <unsatcores/UnsatCoreBuilder.h>
 
+#ifdef OPENSMT_VERIF
+#include <common/VerifTrace.h>
+#endif
+
 namespace opensmt {
+
+#ifdef OPENSMT_VERIF
+// "(ms <solver> <op> (frames <n>) (unsat <b0 b1 ...>) (fns <firstNotSimplifiedFrame>) (inserted <count>) <extra>)":
+// the assertion-stack bookkeeping after an operation of MainSolver
+void MainSolver::verifTraceState(char const * op, std::string const & extra) const {
+    if (not veriftrace::on()) { return; }
+    std::string flags;
+    for (std::size_t i = 0; i < frames.frameCount(); ++i) { flags += (i ? " " : ""); flags += (frames[i].unsat ? "1" : "0"); }
+    char buf[32];
+    std::snprintf(buf, sizeof buf, "%p", static_cast<void const *>(this));
+    veriftrace::line(std::string("(ms ") + buf + " " + op + " (frames " + std::to_string(frames.frameCount()) + ") (unsat " + flags
+                     + ") (fns " + std::to_string(firstNotSimplifiedFrame) + ") (inserted " + std::to_string(insertedFormulasCount) + ")"
+                     + (extra.empty() ? "" : " " + extra) + ")");
+}
+#endif
 
 MainSolver::MainSolver(Logic & logic, SMTConfig & conf, std::string name)
     : theory(createTheory(logic, conf)),
@@ -76,6 +95,9 @@ void MainSolver::push() {
     frameTerms.push(newFrameTerm(frames.last().getId()));
     termNames.pushScope();
     if (alreadyUnsat) { rememberLastFrameUnsat(); }
+#ifdef OPENSMT_VERIF
+    verifTraceState("push", "");
+#endif
 }
 
 bool MainSolver::pop() {
@@ -95,6 +117,9 @@ bool MainSolver::pop() {
     termNames.popScope();
     firstNotSimplifiedFrame = std::min(firstNotSimplifiedFrame, frames.frameCount());
     if (not isLastFrameUnsat()) { getSMTSolver().restoreOK(); }
+#ifdef OPENSMT_VERIF
+    verifTraceState("pop", "");
+#endif
     return true;
 }
 
@@ -124,6 +149,9 @@ void MainSolver::insertFormula(PTRef fla) {
 
     frames.add(fla);
     firstNotSimplifiedFrame = std::min(firstNotSimplifiedFrame, frames.frameCount() - 1);
+#ifdef OPENSMT_VERIF
+    verifTraceState("insert", "");
+#endif
 }
 
 bool MainSolver::tryAddNamedAssertion(PTRef fla, std::string const & name) {
@@ -346,8 +374,14 @@ sstat MainSolver::check() {
         printf("; %s query time so far: %f\n", solver_name.c_str(), query_timer.getTime());
         StopWatch sw(query_timer);
     }
+#ifdef OPENSMT_VERIF
+    if (isLastFrameUnsat()) { verifTraceState("check", "(result unsat) (via flag)"); }
+#endif
     if (isLastFrameUnsat()) { return s_False; }
     sstat rval = simplifyFormulas();
+#ifdef OPENSMT_VERIF
+    bool const verifSimplifyUnsat = (rval == s_False);
+#endif
 
     if (config.dump_query()) printCurrentAssertionsAsQuery();
 
@@ -360,6 +394,11 @@ sstat MainSolver::check() {
             rememberUnsatFrame(smt_solver->getConflictFrame());
         }
     }
+#ifdef OPENSMT_VERIF
+    verifTraceState("check", std::string("(result ") + (rval == s_True ? "sat" : rval == s_False ? "unsat" : "unknown") + ") (via "
+                    + (verifSimplifyUnsat ? "simplify" : "solve") + ")"
+                    + ((rval == s_False and not verifSimplifyUnsat) ? " (conflict-frame " + std::to_string(smt_solver->getConflictFrame()) + ")" : ""));
+#endif
 
     return rval;
 }
